@@ -13,8 +13,10 @@ HARNESSES = [
                 ("internal/pppoe/zz_verif_c12_test.go", _F + "c12_pppoe_test.go")]),
     dict(name="ow", pkg="./pkg/opdb/", test="TestVerifC12OW", timeout=600,
          files=[("pkg/opdb/zz_verif_c12_ow_test.go", _F + "c12_ow_test.go")]),
+    dict(name="sq", pkg="./pkg/opdb/sqlite/", test="TestVerifC12SQ", timeout=600,
+         files=[("pkg/opdb/sqlite/zz_verif_c12_sq_test.go", _F + "c12_sqlite_test.go")]),
 ]
-VARIANTS = ["repaired", "d_delfail", "d_async", "d_reserve", "defective"]
+VARIANTS = ["repaired"]      # = /repo HEAD; every C12 finding is fixed, a regression to an old defect is a VIOLATION
 MODEL_NEEDS_IMPL = True
 RULE = ("one case = one whole history over <=6 sessions on a fresh component with a scheduler-controlled opdb fake: "
         "new (bring-up with allocator answers; pool/static/no address per family, bound/released-v4/approved/created flags "
@@ -118,6 +120,8 @@ def _history(rng, proto, nops, nsess):
             elif store and rng.random() < 0.15:
                 c += ":%d" % rng.choice(sorted(store))
             ops.append(c)
+            if rng.random() < 0.3:
+                ops.append("flip")          # direction flip right after the restore, before any new allocation
             pend = [(tick + k, i) for k, i in enumerate(sorted(store))]
             tick += len(store)
             live = sorted(store)
@@ -130,6 +134,8 @@ def _history(rng, proto, nops, nsess):
                 store.discard(i)
                 tick += 1
                 ops.append("done:%d" % t)
+        if rng.random() < 0.05:
+            ops.append("flip")
         if rng.random() < 0.03 and live:
             ops.append("ck:%d" % (nxt + 1))      # checkpoint of an unknown session: skipped
     return ops
@@ -178,6 +184,10 @@ def _structured(proto):
         [n(0), "ck:0", "poison:0", "cks:0", "done:0", "crash:p"],
         [n(0), "ck:0", "done:0", "cksf:0", "crash:p", "cksf:0", "rel:0", "crash:p"],
         [n(0), "cksf:0", "crash:p", n(1)],
+        # allocation direction flips after the restart (HA node that lost the election): reservations must survive
+        [n(0, a="a:a:a", t="3600:10:3600:10"), "ck:0", "done:0", "crash:p", "flip", n(1, a="a:a:a"), n(2, a="a:a:a")],
+        [n(0), n(1), "ck:1", "done:0", "crash:e", "flip", "flip", n(2), n(3)],
+        [n(0), n(1), "flip", n(2), "rel:1", "flip", n(3), "cks:0", "crash:p", n(4)],
         # stop in the middle of a release: Put applied / not applied, Delete not yet
         [n(0), "ck:0", "relstop:0:p:d"],
         [n(0), "ck:0", "relstop:0:p:n", n(1)],
@@ -238,13 +248,39 @@ def _ow_cases(rng, n):
     return out
 
 
+def _sq_cases(rng, n):
+    """Store contract on the real sqlite store; a failing op (lock held on every attempt) costs ~0.2 s"""
+    out = ["sq put:a:1 lock del:a unlock", "sq put:a:1 lock delr:a", "sq lock put:a:1 putr:b:2 lock clear unlock del:b",
+           "sq put:a:1 put:a:2 del:b lock put:a:3 del:a clear unlock clear put:b:5", "sq lock delr:a putr:a:4 lock putr:a:5 del:a"]
+    for _ in range(n):
+        ops, locked, fails = [], False, 0
+        for _ in range(rng.choice([3, 5, 8])):
+            r = rng.random()
+            k = rng.choice("ab")
+            if r < 0.15:
+                ops.append("lock"); locked = True
+            elif r < 0.25:
+                ops.append("unlock"); locked = False
+            elif r < 0.45:
+                ops.append("putr:%s:%d" % (k, rng.randint(1, 9))); locked = False
+            elif r < 0.55:
+                ops.append("delr:%s" % k); locked = False
+            elif locked and fails >= 2:
+                ops.append("unlock"); locked = False
+            else:
+                ops.append(rng.choice(["put:%s:%d" % (k, rng.randint(1, 9)), "del:%s" % k, "del:%s" % k, "clear"]))
+                fails += locked
+        out.append("sq " + " ".join(ops))
+    return out
+
+
 def gen_cases(rng, tier, budget):
-    cases = _ow_cases(rng, 150 if tier == "quick" else 1500)
+    cases = _ow_cases(rng, 150 if tier == "quick" else 1500) + _sq_cases(rng, 12 if tier == "quick" else 150)
     for proto in ("ipoe", "pppoe"):
         for h in _structured(proto):
             for cfg in ("4 4 1", "2 2 1"):
                 cases.append("%s %s %s" % (proto, cfg, " ".join(h)))
-    n = budget or (1800 if tier == "quick" else 12000)
+    n = budget or (1500 if tier == "quick" else 12000)
     for k in range(n):
         proto = "ipoe" if k % 2 == 0 else "pppoe"
         n4, n6, kpd = rng.choice([2, 3, 4, 6]), rng.choice([2, 3, 4]), rng.choice([1, 2])
@@ -323,6 +359,9 @@ def _monitor(case, impl):
 
 
 def classify(case, impl, model):
+    if case.startswith("sq "):
+        return "P", ("sqlite Store contract broken (nil returned without effect, or effect / error mismatch): impl=%r model=%r"
+                     % (impl[:200], model[:200]))
     if case.startswith("ow "):
         fi, fm = _field(impl, "log"), _field(model, "log")
         if fi != fm:
@@ -355,23 +394,12 @@ def classify(case, impl, model):
 
 
 def signature(case, impl, models):
-    proto = route(case)
-    if proto == "ow":
-        return None
-    if impl == models.get("d_delfail"):
-        return "delete-error-ignored/%s" % proto
-    if impl == models.get("d_async"):
-        v = _monitor(case, impl) or ""
-        kind = "resurrect" if "released session" in v else "stale-image"
-        return "async-put-reorder/%s/%s" % (proto, kind)
-    if impl == models.get("d_reserve"):
-        return "pppoe-restore-no-reserve"
-    if impl == models.get("defective"):
-        return "pppoe-restore-no-reserve+async-put-reorder"
-    return None
+    return None          # no open finding
 
 
 def nontrivial(case, impl):
+    if case.startswith("sq "):
+        return "err" in impl
     if case.startswith("ow "):
         return "log=-" not in impl
     return bool(re.search(r"R\d+:", impl))
@@ -379,7 +407,7 @@ def nontrivial(case, impl):
 
 def shrink(case):
     t = case.split()
-    if t[0] == "ow":
+    if t[0] in ("ow", "sq"):
         for i in range(1, len(t)):
             yield " ".join(t[:i] + t[i + 1:])
         return
@@ -406,10 +434,11 @@ def distribution(cases, impl):
          "mean_ops": 0}
     tot = 0
     d["ow"] = 0
+    d["sq"] = 0
     for c, o in zip(cases, impl):
         t = c.split()
         d[t[0]] += 1
-        if t[0] == "ow":
+        if t[0] in ("ow", "sq"):
             continue
         tot += len(t) - 4
         nc = 0
